@@ -100,7 +100,7 @@ SUITES = {
                           "rt_drain_filter__s8_4a_m0111_end", "rt_drain_filter__s8_4a_m1100_end", "rt_drain_filter__s8_4a_m1010_j1", "rt_drain_filter__s8_4a_m1100_j1", "rt_drain_filter__s8_4a_m1111_j0",
                           "rt_drain_filter__s8_4a_m1101_j2f", "rt_drain_filter__s8_8g0_m1110_end", "rt_drain_filter__s8_8g4_m101_j1",
                           "rt_drain_filter__u8_3t_m101_end", "rt_drain_filter__s8_e_m010_end", "se_retain__s8_8g0", "zst_retain__old2_drop", "zst_retain__old2_keep"])],
-        "thorough": [("km", ["rt_*", "se_retain__*", "zst_retain__*"])],
+        "thorough": [("km", ["rt_*", "se_retain__*", "se_drain_filter__*", "zst_retain__*"])],
     },
     "C10": {
         "quick": [("km-cnt", ["cnt_reserve__split", "cnt_reserve__unsplit", "cnt_try_reserve__split", "cnt_try_reserve__unsplit",
@@ -177,6 +177,9 @@ _MAIN_EMPTY_QUICK = {
     "C14": ("km", ["eq_same__s8m0_4a__u2"]),
     "C16": ("km-serde", ["sd_ser_map__s8m0_4a"]),
 }
+# HashSet::drain_filter (its own wrapper type and Drop) next to the map's
+_MAIN_EMPTY_QUICK["C09"][1].extend(["se_drain_filter__s8_4a_m1100_j1", "se_drain_filter__s8m0_4a_m10_j0"])
+_MAIN_EMPTY_QUICK["C13"] = ("km", ["se_drain_filter__s8_4a_m0110_end"])
 for _p, (_cfg, _hs) in _MAIN_EMPTY_QUICK.items():
     for _c, _l in SUITES[_p]["quick"]:
         if _c == _cfg:
